@@ -52,7 +52,8 @@ def gen(rng, tier):
         elif style == "feas-like":
             rows = [[Fraction(int(x)) for x in row] for row in rows]                                     # integer QUBO: Ising coefficients are multiples of 1/4
         yield dict(mode="matrix", n=n, M=[[fs(x) for x in row] for row in rows], const=fs(G.q(rng) if style != "thousandths" else G.q(rng) / 64),
-                   pattern=rng.choice(["upper-triangular", "symmetric", "none"]), ising=rng.random() < 0.6, style=style)
+                   pattern=rng.choice(["upper-triangular", "symmetric", "none"]), ising=rng.random() < 0.6, style=style,
+                   ckind=rng.choice(["csr", "csr", "csr_zero", "csr_zero", "coo_dup", "ndarray"]))
 
 
 def shrink(case):
@@ -242,7 +243,11 @@ def run_case(case, drv):
     ising = case["ising"]
     res.features += [f"n:{n}", f"style:{case['style']}", f"ising:{ising}", f"pattern:{case['pattern']}"]
     res.nontrivial = n >= 2 and any(M[i][j] != 0 for i in range(n) for j in range(n) if i != j)
-    C = qt.QUBOContainer(G.to_container(M, "csr", dtype=case.get("dtype")), float(const), case["pattern"])
+    # the container is built from a dense array, a CSR matrix, a CSR matrix holding an explicitly stored zero, or a COO matrix with
+    # duplicate entries and a stored zero (the export must list coefficients, not storage slots)
+    ckind = case.get("ckind", "csr")
+    res.features.append(f"container:{ckind}")
+    C = qt.QUBOContainer(G.to_container(M, ckind, dtype=case.get("dtype")), float(const), case["pattern"])
     with tempfile.TemporaryDirectory(prefix="vh_c10_") as d:
         fn = os.path.join(d, "p.rudy" if ising else "p.qubo")
         try:
